@@ -348,6 +348,11 @@ func runOnce(run int, cfg config, rec *recorder, cutAfter int64, found func(sig,
 			// returning frees the channel: a close without payload from the server side
 			srvSide.rec.log(Event{E: "sb", C: c, D: "s2c", M: 0, Close: true})
 		}
+		if *rough && c%2 == 1 {
+			// a handler that ends its channel itself before it returns: the library's own Free afterwards finds it freed
+			// (it recovers and logs "free called multiple times"); nothing else may happen
+			ch.Free()
+		}
 		return status.OK
 	}
 	srv, err := mpxh.StartServer(mpx.HandleFunc(handler), opts)
@@ -509,6 +514,9 @@ func runOnce(run int, cfg config, rec *recorder, cutAfter int64, found func(sig,
 		}()
 	}
 	for _, e := range mpxh.Panics(append(lg.Take(), srv.Logger.Take()...)) {
+		if *rough && strings.Contains(e, "free called multiple times") {
+			continue // the handler freed its channel itself (see above): recovered and logged by design
+		}
 		found("panic:library", e)
 	}
 }
